@@ -25,9 +25,11 @@ import (
 	"math/rand"
 	"os"
 	"path/filepath"
+	"runtime"
 	"sort"
 	"strings"
 	"sync"
+	"sync/atomic"
 	"testing"
 	"testing/synctest"
 	"time"
@@ -1023,6 +1025,11 @@ func vfC14StressRound(t *testing.T, seed int64, phase int) (string, string, any,
 			lh := map[string]bool{}
 			for i := 0; i < nOps; i++ {
 				p := peers[grnd.Intn(len(peers))]
+				if phase >= 2 && p.class != "anchor" && p.class != "prot" {
+					// once the clock moves, an early tag's temporary entry can expire and be pruned by two
+					// overlapping trims: that history class has its own steered scenario (TestVerifC14Overlap)
+					continue
+				}
 				switch grnd.Intn(3) {
 				case 0:
 					v := grnd.Intn(7) - 2
@@ -1059,6 +1066,9 @@ func vfC14StressRound(t *testing.T, seed int64, phase int) (string, string, any,
 			for i := 0; i < nOps; i++ {
 				p := peers[grnd.Intn(len(peers))]
 				d := grnd.Intn(3) + 1
+				if phase >= 2 && p.class != "anchor" && p.class != "prot" {
+					continue // see the tag goroutines
+				}
 				if dtag.Bump(p.id, d) == nil && p.class == "anchor" {
 					local[p.name] += d
 				}
@@ -1552,5 +1562,158 @@ func TestVerifC14Gates(t *testing.T) {
 	})
 	for _, m := range vfC14PerClass(l1, 6) {
 		res.AddMismatch(m)
+	}
+}
+
+// ---------------------------------------------------------------------------------------------
+// two overlapping trims and a peer whose early-tag entry expires
+
+// TrimOpenConns is serialised by trimMutex, the background ticker's trim is not: the two can overlap.
+// The scenario steers that overlap with the Stat() callbacks only (bounded yields, no clock): trim A
+// (TrimOpenConns) has collected its candidates when trim B (the ticker's path) starts; A waits a bounded
+// number of yields per callback until B has collected too; B then lags behind (bounded yields per
+// callback) until A is done and "the network" has delivered Connected for every peer whose expired
+// early-tag entry A pruned.  Audit: every peer for which Connected was delivered is tracked, and after
+// its Disconnected the count is zero again.
+type vfC14OvCtl struct {
+	role       sync.Map // goroutine id -> "a" | "b"
+	started    atomic.Bool
+	aDone      atomic.Bool
+	bCollected atomic.Bool
+	netDone    atomic.Bool
+	startB     func()
+}
+
+func vfC14Goid() string {
+	var b [64]byte
+	n := runtime.Stack(b[:], false)
+	var id string
+	fmt.Sscanf(string(b[:n]), "goroutine %s ", &id)
+	return id
+}
+
+type vfC14OvConn struct {
+	vfC14Conn
+	ctl *vfC14OvCtl
+}
+
+func (c *vfC14OvConn) Stat() network.ConnStats {
+	if c.ctl != nil {
+		r, _ := c.ctl.role.Load(vfC14Goid())
+		switch r {
+		case "a":
+			if c.ctl.started.CompareAndSwap(false, true) {
+				c.ctl.startB()
+			} else {
+				for i := 0; i < 300 && !c.ctl.bCollected.Load(); i++ {
+					runtime.Gosched()
+				}
+			}
+		case "b":
+			c.ctl.bCollected.Store(true)
+			for i := 0; i < 2000 && !(c.ctl.aDone.Load() && c.ctl.netDone.Load()); i++ {
+				runtime.Gosched()
+			}
+		}
+	}
+	return network.ConnStats{Stats: network.Stats{Direction: network.DirOutbound}}
+}
+
+func TestVerifC14Overlap(t *testing.T) {
+	vfC14Silence()
+	res := vfh.NewResult()
+	defer func() {
+		if err := res.Write(); err != nil {
+			t.Fatal(err)
+		}
+	}()
+	res.Rule = "one case = one round: 8 peers with an expired early-tag (temporary) entry and 12 connected peers of equal value; TrimOpenConns and the ticker's trim overlap (steered through Stat() callbacks with bounded yields), every peer whose temporary entry is pruned connects; audit: each of them is tracked, and after its Disconnected ConnCount is back to the 12 others"
+	rounds := 30
+	if vfh.Thorough() {
+		rounds = 200
+	}
+	for round := 0; round < rounds; round++ {
+		clk := clock.NewMock()
+		clk.Set(time.Unix(1_700_000_000, 0))
+		cm, err := NewConnManager(1, 1000, WithClock(clk), WithGracePeriod(vfC14Unit), WithSilencePeriod(1_000_000*time.Hour),
+			DecayerConfig(&DecayerCfg{Resolution: 1_000_000 * time.Hour, Clock: clk}))
+		if err != nil {
+			t.Fatal(err)
+		}
+		nf := cm.Notifee()
+		ctl := &vfC14OvCtl{}
+		sink := &vfC14Sink{}
+		mk := func(name string, last byte, withCtl bool, i int) *vfC14OvConn {
+			a, _ := ma.NewMultiaddr(fmt.Sprintf("/ip4/10.16.%d.%d/tcp/4001", last/100, 1+i))
+			c := &vfC14OvConn{vfC14Conn: vfC14Conn{name: name, pname: name, pid: peer.ID("vfC14o-" + name + string([]byte{last})), addr: a, sink: sink}}
+			if withCtl {
+				c.ctl = ctl
+			}
+			return c
+		}
+		var xs []*vfC14OvConn
+		for i := 0; i < 8; i++ {
+			c := mk(fmt.Sprintf("x%d", i), byte(i), false, i)
+			cm.TagPeer(c.pid, "early", 1) // temporary entry
+			xs = append(xs, c)
+		}
+		for i := 0; i < 12; i++ {
+			nf.Connected(nil, mk(fmt.Sprintf("a%d", i), byte(100+i), true, 100+i))
+		}
+		clk.Add(2 * vfC14Unit) // everything is past its grace period
+		var wg sync.WaitGroup
+		ctl.startB = func() {
+			wg.Add(2)
+			go func() {
+				defer wg.Done()
+				ctl.role.Store(vfC14Goid(), "b")
+				cm.trim()
+			}()
+			go func() {
+				defer wg.Done()
+				defer ctl.netDone.Store(true)
+				for _, c := range xs {
+					for i := 0; i < 200000 && cm.GetTagInfo(c.pid) != nil; i++ {
+						runtime.Gosched()
+					}
+					nf.Connected(nil, c)
+				}
+			}()
+		}
+		wg.Add(1)
+		go func() {
+			defer wg.Done()
+			ctl.role.Store(vfC14Goid(), "a")
+			cm.TrimOpenConns(context.Background())
+			ctl.aDone.Store(true)
+		}()
+		wg.Wait()
+		res.Count(1, 8+12+2+8)
+		res.Case(fmt.Sprintf("overlap-%d", round))
+		if !ctl.started.Load() {
+			cm.Close()
+			t.Fatalf("the trim never compared two tied peers: the overlap was not steered")
+		}
+		lost := []string{}
+		for _, c := range xs {
+			if ti := cm.GetTagInfo(c.pid); ti == nil || len(ti.Conns) != 1 {
+				lost = append(lost, c.name)
+			}
+		}
+		for _, c := range xs {
+			nf.Disconnected(nil, c)
+		}
+		count := cm.GetInfo().ConnCount
+		cm.Close()
+		if len(lost) > 0 || count != 12 {
+			res.Inc("rounds_reproducing", 1)
+			if res.NMismatch() == 0 {
+				res.AddMismatch(vfh.Mismatch{Class: "overlapping-trims-drop-reconnected-peer", Walk: -1, Step: round,
+					What:     fmt.Sprintf("TrimOpenConns overlapping the ticker's trim: peers %v connected after their expired early-tag entry had been pruned by one trim; the other trim, still holding the stale temporary peerInfo, deleted their NEW entry: Connected delivered, no entry; after their Disconnected ConnCount is %d instead of 12", lost, count),
+					Expected: map[string]any{"untracked": []string{}, "conn_count_after_disconnects": 12},
+					Got:      map[string]any{"untracked": lost, "conn_count_after_disconnects": count},
+					Cfg:      map[string]any{"round": round, "low": 1, "grace_units": 1}})
+			}
+		}
 	}
 }
